@@ -65,5 +65,18 @@ LineRows(notes, cfg, bl, d) == { LineRow(notes, cfg, t) : t \in LineTimes(notes,
 VisibleRows(notes, cfg, bl, divs) == { y \in UNION { LineRows(notes, cfg, bl, d) : d \in divs } : y >= 0 /\ y < CanvasH(notes, cfg) }
 LineXMax(notes, cfg) == LET r == Keys(notes) * (cfg.nw + cfg.clw)  w == CanvasW(notes, cfg) IN IF r < w THEN r ELSE w - 1
 RowDivision(notes, cfg, bl, divs, y) == MinOf({ d \in divs : y \in LineRows(notes, cfg, bl, d) })
+(* PFDrawColumnLines: separators between the columns.  Column c occupies x in c(nw+clw) .. c(nw+clw)+nw-1, so the gap       *)
+(* before column k (k = 1 .. keys-1) is x in k(nw+clw)-clw .. k(nw+clw)-1: "separating columns of notes" means the          *)
+(* separators fill the gaps and never lie on a note's pixels.  Vertically the code draws from the row of the last start    *)
+(* time down to the row of time 0 (int() truncates towards zero), clipped to the canvas; that extent is specified as built. *)
+Trunc(a, b) == IF a >= 0 THEN a \div b ELSE -((-a) \div b)
+GapXs(notes, cfg) == UNION { (k * (cfg.nw + cfg.clw) - cfg.clw)..(k * (cfg.nw + cfg.clw) - 1) : k \in 1..(Keys(notes) - 1) }
+SepRowLast(notes, cfg) == PosY(notes, cfg, LastT(notes))
+SepRowZero(notes, cfg) == CanvasH(notes, cfg) - Trunc(0 - Start(notes, cfg), cfg.dpp) - cfg.hh
+SepRows(notes, cfg) ==
+    LET a == SepRowLast(notes, cfg)  b == SepRowZero(notes, cfg)
+        lo == IF a < b THEN a ELSE b  hi == IF a < b THEN b ELSE a IN
+    { y \in lo..hi : y >= 0 /\ y < CanvasH(notes, cfg) }
+SepPixels(notes, cfg) == { <<x, y>> \in GapXs(notes, cfg) \X SepRows(notes, cfg) : OnCanvas(notes, cfg, x, y) }
 Inside(notes, cfg, b) == b.x0 >= 0 /\ b.y0 >= 0 /\ b.x0 + b.w <= CanvasW(notes, cfg) /\ b.y0 + b.h <= CanvasH(notes, cfg)
 =============================================================================
